@@ -123,6 +123,21 @@ Definition py_int_lim (s : str) : res Z :=
 (* "e" in magnitude.lower() *)
 Definition has_e (s : str) : bool := occursb (lit "e") (py_lower s).
 
+(* helpers of the translated QemuImgInfo code (Gen/C10_QemuCode.v) *)
+Definition search_groups (r : re) (s : str) : option groups :=
+  match re_search r s with Some (_, _, g) => Some g | None => None end.
+Definition int_of_optstr (o : option str) : res Z :=        (* int(x): int(None) is a TypeError *)
+  match o with None => Exn TypeError | Some s => py_int_lim s end.
+Definition str_of_optstr (o : option str) : str :=          (* '{}'.format(x) *)
+  match o with Some s => s | None => lit "None" end.
+(* strutils.string_to_bytes(t, return_int=True): the default unit system *)
+Definition s2b_int (t : str) : res Z :=
+  match string_to_bytes t (lit "IEC") true with
+  | Ok (NInt z) => Ok z
+  | Ok (NFloat _) => Exn OtherError                          (* unreachable: return_int=True *)
+  | Exn e => Exn e
+  end.
+
 Definition extract_bytes (details : str) : res Z :=
   match re_search size_re details with
   | None => Exn ValueError
@@ -147,12 +162,42 @@ Definition extract_bytes (details : str) : res Z :=
         | Some (c :: r) =>
             let u := c :: r in
             let u' := if (zlen u =? 1) && negb (beq u (lit "B")) then u ++ lit "B" else u in
-            match string_to_bytes (magnitude ++ u') (lit "IEC") true with
-            | Ok (NInt z) => Ok z
-            | Ok (NFloat _) => Exn OtherError                (* unreachable: return_int=True *)
-            | Exn e => Exn e
-            end
+            s2b_int (magnitude ++ u')
         | _ => py_int_lim magnitude
         end
     end
+  end.
+
+(* ---------- QemuImgInfo._canonicalize, the byte-size branch of _extract_details, one line of _parse ---------- *)
+
+Definition canonicalize (field : str) : str :=
+  replace (lit "-") (lit "_") (replace (lit " ") (lit "_") (strip (py_lower field))).
+
+Definition size_fields : list str := [lit "virtual_size"; lit "cluster_size"; lit "disk_size"].
+Definition zero_words : list str := [lit "None"; lit "unavailable"].
+
+(* None: root_cmd is another kind of field.  Otherwise 0 for the two words qemu-img prints for an
+   unknown size, else the byte count — and whatever _extract_bytes raises propagates *)
+Definition size_details (root_cmd root_details : str) : option (res Z) :=
+  if existsb (beq root_cmd) size_fields
+  then Some (if existsb (beq root_details) zero_words then Ok 0 else extract_bytes root_details)
+  else None.
+
+(* one non-blank line of the human format: TOP_LEVEL_RE, canonical field name, stripped details *)
+Definition parse_line (line : str) : option (str * str) :=
+  match re_match top_level_re line with
+  | None => None
+  | Some (_, g) =>
+      match group_text line g 1, group_text line g 2 with
+      | Some g1, Some g2 => let root := canonicalize g1 in
+                            match root with [] => None | _ => Some (root, strip g2) end
+      | _, _ => None
+      end
+  end.
+
+(* what QemuImgInfo stores for a line that names a byte-size field *)
+Definition size_of_line (line : str) : option (str * res Z) :=
+  match parse_line line with
+  | None => None
+  | Some (root, d) => match size_details root d with Some v => Some (root, v) | None => None end
   end.
